@@ -36,6 +36,11 @@ class C15(Check):
                     'auths': [True], 'subs': [False, True]})
         for t in ('right-ca', 'wrong-ca', 'wrong-hostname', 'wrong-hostname-unchecked'):
             out.append({'kind': 'tls', 'trust': t})
+        # the documented protocol constants x host-name checking on/off, against a server whose certificate chains to ANOTHER CA
+        for proto in ('PROTOCOL_TLS_CLIENT', 'PROTOCOL_TLS', 'PROTOCOL_TLSv1_2'):
+            for chk in (True, False):
+                out.append({'kind': 'tls', 'trust': 'wrong-ca', 'protocol': proto, 'check_hostname': chk})
+                out.append({'kind': 'tls', 'trust': 'right-ca', 'protocol': proto, 'check_hostname': chk})
         return out
 
     def run_impl(self, case):
@@ -44,6 +49,9 @@ class C15(Check):
             return run_connect(case)
         from impl import e2e
         sc = {'transport': 'tls', 'profile': 'default'}
+        if 'protocol' in case:
+            sc['protocol'] = case['protocol']
+            sc['check_hostname'] = case['check_hostname']
         if case['trust'] == 'wrong-ca':
             sc['ca_certs'] = e2e.pki()['otherca']
         if case['trust'].startswith('wrong-hostname'):
@@ -98,7 +106,8 @@ class C15(Check):
                     return ('C15:tls-valid-rejected:' + t, 'connect with a valid chain gave %s' % io['result'])
                 return None
             if not io['result'].startswith('exc:TransportError:TLSError'):
-                return ('C15:tls-accepted-bad-peer:' + t, 'connect gave %s for %s' % (io['result'], t))
+                return ('C15:tls-accepted-bad-peer:%s/%s/%s' % (t, case.get('protocol', 'PROTOCOL_TLS_CLIENT'), case.get('check_hostname', True)),
+                        'connect gave %s for %s' % (io['result'], t))
             if io['netconf_bytes_received'] or io['client_hello_seen']:
                 return ('C15:tls-hello-before-verification:' + t, 'NETCONF bytes were written although the certificate check failed')
             return None
